@@ -95,6 +95,7 @@ theorem msgAcknowledgement_prims (s : State) (p : Packet) (a : Data) (π : Proof
     Prims H s.core (msgAcknowledgement H Hc s p a π h).1.core := by
   unfold msgAcknowledgement
   have h1 : Prims H s.core (s.core.acknowledgePacket H p a π h).1 := Prims.single H (Prim.ack _ _ _ _ _)
+  simp only
   split
   · exact Prims.refl _
   · split
@@ -103,7 +104,8 @@ theorem msgAcknowledgement_prims (s : State) (p : Packet) (a : Data) (π : Proof
       subst this; exact h1
     · rename_i c heq
       have : c = (s.core.acknowledgePacket H p a π h).1 := by rw [heq]
-      subst this; exact h1
+      subst this
+      split <;> exact h1
 
 theorem handle_prims (s : State) (m : Msg) : Prims H s.core (handle H Hc s m).1.core := by
   cases m with
@@ -186,6 +188,7 @@ theorem deliver_ack_ok (s : State) (p : Packet) (a : Data) (π : Proof) (h : Nat
         rcases Core.acknowledgePacket_cases H s.core p a π h with ⟨hrok, _⟩ | ⟨_, e, he⟩
         · exact hrok
         · rw [he] at hh
+          simp only at hh
           split at hh <;> simp at hh
 
 end Tibc
